@@ -24,6 +24,10 @@ type Case struct {
 	Real SX // observations of the real code
 	Rec  *R
 	Tags []string // generator tags for the distribution report
+	// real objects, for the direct oracles
+	Err     error
+	Refs    []error
+	RefRecs []*R // nil for (node j) references
 }
 
 type Mismatch struct {
